@@ -367,6 +367,17 @@ impl FormattingError {
     }
 }
 
+#[cfg(feature = "verif-hooks")]
+impl FormattingError {
+    pub(crate) fn is_comment_for_verif(&self) -> bool {
+        self.is_comment
+    }
+
+    pub(crate) fn is_string_for_verif(&self) -> bool {
+        self.is_string
+    }
+}
+
 pub(crate) type FormatErrorMap = HashMap<FileName, Vec<FormattingError>>;
 
 #[derive(Default, Debug, PartialEq)]
